@@ -87,14 +87,15 @@ def run(ctx):
     traces, results = lc.run_sharded(ctx, "c03", picked, shards=12 if q else 14)
     # the same proxy state machine behind an xprotocol (bolt) listener, two-way and one-way requests: cases without
     # processError-count gates (a bolt request carries a body, which shifts that count) and without step schedules
-    plain = [c for c in cases if not c.get("steps") and not c.get("body") and not c["hold"].startswith("ds.pe#") and not c["hold2"].startswith("ds.pe#")]
+    # (cases for the scripted stream layer, layer = "script", run under the HTTP/1 listener only: the layer answers in HTTP/1 terms)
+    plain = [c for c in cases if not c.get("steps") and not c.get("body") and not c.get("layer") and not c["hold"].startswith("ds.pe#") and not c["hold2"].startswith("ds.pe#")]
     bolt_cases = [c for c in plain if c["hold"] == "none"] + rng.sample([c for c in plain if c["hold"] != "none"], 120 if q else 1500)
     oneway_cases = [c for c in plain if c["hold"] == "none" and c["script"][0] in ("ok", "close", "hang", "s503")]
     t2, r2 = lc.run_sharded(ctx, "c03", bolt_cases, shards=8 if q else 12, extra_args=["-proto", "bolt"], tag="_bolt")
     t3, r3 = lc.run_sharded(ctx, "c03", oneway_cases, shards=4, extra_args=["-proto", "boltoneway"], tag="_oneway")
     # and behind an HTTP/2 listener with an HTTP/2 upstream (every kind of case, step schedules included)
-    held = [c for c in cases if c["hold"] != "none" or c.get("steps")]
-    h2_cases = [c for c in cases if c["hold"] == "none" and not c.get("steps")] + (rng.sample(held, min(len(held), 170)) if q else held)
+    held = [c for c in cases if (c["hold"] != "none" or c.get("steps")) and not c.get("layer")]
+    h2_cases = [c for c in cases if c["hold"] == "none" and not c.get("steps") and not c.get("layer")] + (rng.sample(held, min(len(held), 170)) if q else held)
     t4, r4 = lc.run_sharded(ctx, "c03", h2_cases, shards=8 if q else 14, extra_args=["-proto", "http2"], tag="_h2")
     # the shape of the request as a value class: wire forms of every protocol x what a body-replacing filter does
     t5, r5 = shape_runs(ctx, rng)
